@@ -1,4 +1,4 @@
-import Taskpool.Inv.SemLemmas
+import Taskpool.Inv.MapSem
 /-! The wrapper of a pool task preserves `Good` — slot conservation, phase, registry, group and **life-cycle**
 invariants — in every phase, user code included.
 
@@ -40,13 +40,15 @@ theorem heldL_modify_at (ts : List PTask) (t : Nat) (f : PTask → PTask) (x : P
       simp only [heldL, List.modify_succ_cons, List.countP_cons] at this ⊢
       omega
 
-/-- **the generic leaf**: an update of task `t` whose effect on the soft profile is `g`, keeping `released` -/
-theorem good_cur {cap : Cap} {L : Bool} (p : Pool) (t : Nat) (f : PTask → PTask) (g : SoftP → SoftP)
-    (hfg : ∀ x, (f x).soft = g x.soft) (hg : Good cap L p) (s : SoftP) (hc : p.Cur t s)
+/-- **the generic leaf**, everything but the map books: an update of task `t` whose effect on the soft profile is `g`,
+keeping `released` -/
+theorem good0_cur {cap : Cap} {L : Bool} (p : Pool) (t : Nat) (f : PTask → PTask) (g : SoftP → SoftP)
+    (hfg : ∀ x, (f x).soft = g x.soft) (hg : Good0 cap L p) (s : SoftP) (hc : p.Cur t s)
     (hrel : (g s).released = s.released)
     (hnyr : NYR (g s).phase = true → s.released = false)
     (hcan : t ∈ p.cancelledR → (g s).phase ≠ .created ∧ (g s).phase ≠ .inWorker)
-    (hok : OKs p.lost (g s)) : Good cap L (p.modTask t f) ∧ (p.modTask t f).Cur t (g s) := by
+    (hok : OKs p.lost (g s)) :
+    Good0 cap L (p.modTask t f) ∧ (p.modTask t f).Cur t (g s) := by
   obtain ⟨x, hx, hs⟩ := hc
   have hfx : (f x).soft = g s := by rw [hfg, hs]
   have hrelx : (f x).released = x.released := by
@@ -83,6 +85,29 @@ theorem good_cur {cap : Cap} {L : Bool} (p : Pool) (t : Nat) (f : PTask → PTas
       rw [hfx]; exact hok
     · exact hg.life i y hy
 
+/-- **the generic leaf**: … that moves no map slot either -/
+theorem good_cur {cap : Cap} {L : Bool} (p : Pool) (t : Nat) (f : PTask → PTask) (g : SoftP → SoftP)
+    (hfg : ∀ x, (f x).soft = g x.soft) (hg : Good cap L p) (s : SoftP) (hc : p.Cur t s)
+    (hrel : (g s).released = s.released)
+    (hnyr : NYR (g s).phase = true → s.released = false)
+    (hcan : t ∈ p.cancelledR → (g s).phase ≠ .created ∧ (g s).phase ≠ .inWorker)
+    (hok : OKs p.lost (g s))
+    (hmap : (g s).mapHeld = s.mapHeld ∧ (g s).req = s.req := by exact ⟨rfl, rfl⟩) :
+    Good cap L (p.modTask t f) ∧ (p.modTask t f).Cur t (g s) := by
+  obtain ⟨h0, hc'⟩ := good0_cur p t f g hfg hg.toGood0 s hc hrel hnyr hcan hok
+  obtain ⟨x, hx, hs⟩ := hc
+  have hfx : (f x).soft = g s := by rw [hfg, hs]
+  have hmp : MapOK (p.modTask t f) := by
+    refine (MapFrame.modify p (p.modTask t f) t f rfl rfl ?_).map hg.map
+    intro y hy
+    rw [hx] at hy; cases hy
+    have a : (f x).mapHeld = (g s).mapHeld := by rw [← hfx]; rfl
+    have b : (f x).req = (g s).req := by rw [← hfx]; rfl
+    have c : x.mapHeld = s.mapHeld := by rw [← hs]; rfl
+    have d : x.req = s.req := by rw [← hs]; rfl
+    rw [a, b, c, d]; exact hmap
+  exact ⟨⟨h0, hmp⟩, hc'⟩
+
 /-! ### profile transformers -/
 
 def _root_.Taskpool.SoftP.setPhase (s : SoftP) (ph : Phase) : SoftP := { s with phase := ph }
@@ -94,7 +119,7 @@ theorem nonNYR_ne (ph : Phase) (h : NYR ph = false) : ph ≠ .created ∧ ph ≠
 /-- changing the phase among phases that carry no life-cycle obligation keeps the profile well-formed -/
 theorem _root_.Taskpool.OKs.setPhase_free {lost : Bool} {s : SoftP} (h : OKs lost s) (ph : Phase)
     (hph : ph = .wrapUp ∨ (ph = .finished ∧ lost = true)) : OKs lost (s.setPhase ph) := by
-  refine ⟨h.e0, h.e1, h.c1, ?_, h.cw, ?_, ?_, h.ord, h.cn, h.en, ?_, h.s1, ?_⟩
+  refine ⟨h.e0, h.e1, h.c1, ?_, h.cw, ?_, ?_, h.ord, h.cn, h.en, ?_, h.s1, ?_, h.mh⟩
   rotate_right
   · intro hc; rcases hph with rfl | ⟨rfl, _⟩ <;> simp [SoftP.setPhase] at hc
   · intro hc; rcases hph with rfl | ⟨rfl, _⟩ <;> simp [SoftP.setPhase] at hc
@@ -106,13 +131,13 @@ theorem _root_.Taskpool.OKs.setPhase_free {lost : Bool} {s : SoftP} (h : OKs los
     · rw [hl'] at hl; cases hl
 
 theorem _root_.Taskpool.OKs.toLost {lost : Bool} {s : SoftP} (h : OKs lost s) : OKs true s :=
-  ⟨h.e0, h.e1, h.c1, h.c0, h.cw, h.cc, h.ec, h.ord, h.cn, h.en, (fun _ hl => by cases hl), h.s1, h.s0⟩
+  ⟨h.e0, h.e1, h.c1, h.c0, h.cw, h.cc, h.ec, h.ord, h.cn, h.en, (fun _ hl => by cases hl), h.s1, h.s0, h.mh⟩
 
 /-- a released task whose callbacks are accounted for may finish -/
 theorem _root_.Taskpool.OKs.finished {lost : Bool} {s : SoftP} (h : OKs lost s) (hr : s.released = true)
     (hne : s.nEC = if s.endCb = .none then 0 else 1)
     (hA : s.wasCancelled = true → s.cancelCb ≠ .none → s.nCC = 1) : OKs lost (s.setPhase .finished) := by
-  refine ⟨h.e0, h.e1, h.c1, ?_, h.cw, ?_, ?_, h.ord, h.cn, h.en, ?_, h.s1, fun hc => by simp [SoftP.setPhase] at hc⟩
+  refine ⟨h.e0, h.e1, h.c1, ?_, h.cw, ?_, ?_, h.ord, h.cn, h.en, ?_, h.s1, (fun hc => by simp [SoftP.setPhase] at hc), h.mh⟩
   · intro hc; simp [SoftP.setPhase] at hc
   · intro hc; simp [SoftP.setPhase] at hc
   · intro hc; simp [SoftP.setPhase] at hc
@@ -134,8 +159,8 @@ theorem _root_.Taskpool.OKs.finished {lost : Bool} {s : SoftP} (h : OKs lost s) 
         rw [h2 this] at hw'; cases hw'
 
 theorem good_setLost {cap : Cap} (p : Pool) (hg : Good cap true p) : Good cap true ({ p with lost := true } : Pool) :=
-  ⟨hg.slot, hg.phase, hg.reg.setLost, hg.grp.of_eq rfl rfl, fun t tk h => (hg.life t tk h).toLost,
-    fun h => Bool.noConfusion h, fun h => Bool.noConfusion h⟩
+  ⟨⟨hg.slot, hg.phase, hg.reg.setLost, hg.grp.of_eq rfl rfl, fun t tk h => (hg.life t tk h).toLost,
+    fun h => Bool.noConfusion h, fun h => Bool.noConfusion h⟩, hg.map.of_eq rfl rfl⟩
 
 /-- in the strict variant the registries are complete, so `_task_ending` finds the id (no `KeyError`) -/
 theorem strict_moveToEnded {cap : Cap} (p : Pool) (t : Nat) (hg : Good cap false p) (s : SoftP) (hc : p.Cur t s)
@@ -177,11 +202,68 @@ theorem good_keyErrorFinish {cap : Cap} (p : Pool) (t) (hg : Good cap true p) (s
   have hok : OKs true s := (hc.ok hg).toLost
   exact hok.setPhase_free .finished (Or.inr ⟨rfl, rfl⟩)
 
-theorem tame_releaseMapSlot (p : Pool) (t tk) : Tame p (p.releaseMapSlot t tk) := by
+/-- the profile after the wrapped end callback of a map task has given back the map slot -/
+def _root_.Taskpool.SoftP.dropMapIf (s : SoftP) : SoftP := { s with mapHeld := s.mapHeld && !s.isMap }
+
+theorem _root_.Taskpool.OKs.dropMapIf {lost : Bool} {s : SoftP} (h : OKs lost s) (hr : s.released = true) :
+    OKs lost s.dropMapIf :=
+  ⟨h.e0, h.e1, h.c1, h.c0, h.cw, h.cc, h.ec, h.ord, h.cn, h.en, h.fin, h.s1, h.s0,
+    fun _ hc => by have : s.released = false := hc; rw [hr] at this; cases this⟩
+
+/-- the wrapped end callback of a map task: the map slot goes back to the call's own semaphore — exactly once,
+because the task still held it -/
+theorem releaseMap_modTask_comm (p : Pool) (m t : Nat) (f : PTask → PTask) :
+    (p.releaseMap m).modTask t f = (p.modTask t f).releaseMap m := by
+  unfold releaseMap
+  show (match p.reqs[m]? with | none => p | some r => _).modTask t f = (match p.reqs[m]? with | none => p.modTask t f | some r => _)
+  cases p.reqs[m]? with
+  | none => rfl
+  | some r =>
+    simp only
+    cases r.mapSem.release.2 <;> rfl
+
+theorem Cur.of_tame0 {p q : Pool} (h : Tame0 p q) {t : Nat} {s : SoftP} (hc : p.Cur t s) : q.Cur t s := by
+  obtain ⟨x, hx, hs⟩ := hc
+  have hlt : t < q.tasks.length := by rw [h.len]; exact (List.getElem?_eq_some_iff.mp hx).1
+  obtain ⟨y, hy, e⟩ := h.soft t q.tasks[t] (by simp [hlt])
+  rw [hx] at hy; cases hy
+  exact ⟨q.tasks[t], by simp [hlt], e.trans hs⟩
+
+theorem good_releaseMapSlot {cap : Cap} {L : Bool} (p : Pool) (t : Nat) (tk : PTask) (hg : Good cap L p) (s : SoftP)
+    (hc : p.Cur t s) (hr : s.released = true) (hph : s.phase = .wrapUp) (hmh : s.isMap = true → s.mapHeld = true)
+    (hi : tk.isMap = s.isMap) (hq : tk.req = s.req) :
+    Good cap L (p.releaseMapSlot t tk) ∧ (p.releaseMapSlot t tk).Cur t s.dropMapIf ∧
+      (p.releaseMapSlot t tk).lost = p.lost := by
   unfold releaseMapSlot
   split
-  · exact Tame.trans (tame_releaseMap p _) (tame_modTask _ t _)
-  · exact Tame.refl p
+  · rename_i him
+    have hsm : s.isMap = true := by rw [← hi]; exact him
+    -- everything but the map books: a tame change, then the generic leaf
+    have t0 := tame0_releaseMap p tk.req
+    have hg0 := t0.good0 hg.toGood0
+    have hc0 : (p.releaseMap tk.req).Cur t s := Cur.of_tame0 t0 hc
+    have hok : OKs (p.releaseMap tk.req).lost s := by rw [t0.lost]; exact hc.ok hg
+    have hdm : s.dropMapIf = { s with mapHeld := false } := by
+      unfold SoftP.dropMapIf; rw [hsm]; simp
+    obtain ⟨h1, hc1⟩ := good0_cur (p.releaseMap tk.req) t (fun k => { k with mapHeld := false })
+      (fun s => { s with mapHeld := false }) (fun _ => rfl)
+      hg0 s hc0 rfl (fun h => by have : NYR s.phase = true := h; rw [hph] at this; simp [NYR] at this)
+      (fun _ => by show s.phase ≠ _ ∧ s.phase ≠ _; rw [hph]; simp) (by rw [← hdm]; exact hok.dropMapIf hr)
+    refine ⟨⟨h1, ?_⟩, by rw [hdm]; exact hc1, t0.lost⟩
+    -- the map books: the task drops its slot, the call's semaphore takes it back
+    obtain ⟨x, hx, hs⟩ := hc
+    have hxh : x.mapHeld = true := by have := hmh hsm; rw [← hs] at this; exact this
+    have hxq : x.req = tk.req := by rw [hq, ← hs]; rfl
+    have hlt : tk.req < p.reqs.length := by rw [← hxq]; exact hg.map.ref t x hx hxh
+    rw [releaseMap_modTask_comm]
+    have m1 := (hg.map.mid tk.req).dropTask t (fun k => { k with mapHeld := false }) x hx hxh hxq rfl rfl
+    exact (mapMid_releaseMap m1 (by simpa [modTask] using hlt)).ok
+  · rename_i him
+    have hsm : s.isMap = false := by rw [← hi]; simpa using him
+    have hdm : s.dropMapIf = s := by
+      cases s; simp_all [SoftP.dropMapIf]
+    rw [hdm]
+    exact ⟨hg, hc, rfl⟩
 
 theorem good_cbBegin_lost (p : Pool) (t : Nat) (tk : PTask) (isEnd : Bool) : (p.cbBegin t tk isEnd).lost = p.lost := by
   unfold cbBegin
@@ -202,7 +284,7 @@ theorem good_cbBegin {cap : Cap} {L : Bool} (p : Pool) (t : Nat) (tk : PTask) (i
     (fun _ => by
       have : (s.incCb isEnd).phase = s.phase := by unfold SoftP.incCb; split <;> rfl
       rw [this, hnot]; simp)
-    hok
+    hok (by unfold SoftP.incCb; split <;> exact ⟨rfl, rfl⟩)
   refine ⟨Tame.good ?_ h1.1, Tame.cur ?_ h1.2⟩
   · exact Tame.trans (tame_logEv _ _) (tame_runHooks _ _ _)
   · exact Tame.trans (tame_logEv _ _) (tame_runHooks _ _ _)
@@ -233,7 +315,7 @@ def _root_.Taskpool.SoftP.release (s : SoftP) : SoftP := { s with released := tr
 
 theorem _root_.Taskpool.OKs.release {lost : Bool} {s : SoftP} (h : OKs lost s) (hph : s.phase = .wrapUp) :
     OKs lost s.release := by
-  refine ⟨fun hc => by simp [SoftP.release] at hc, h.e1, h.c1, h.c0, h.cw, h.cc, ?_, h.ord, h.cn, h.en, ?_, h.s1, h.s0⟩
+  refine ⟨fun hc => by simp [SoftP.release] at hc, h.e1, h.c1, h.c0, h.cw, h.cc, ?_, h.ord, h.cn, h.en, ?_, h.s1, h.s0, fun _ hc => by simp [SoftP.release] at hc⟩
   · intro hc; have : s.phase = .inEndCb := hc; rw [hph] at this; cases this
   · intro hc; have : s.phase = .finished := hc; rw [hph] at this; cases this
 
@@ -241,7 +323,7 @@ theorem _root_.Taskpool.OKs.incEnd {lost : Bool} {s : SoftP} (h : OKs lost s) (h
     (hph : s.phase = .wrapUp) (hne : s.nEC = 0) (hA : s.wasCancelled = true → s.cancelCb ≠ .none → s.nCC = 1)
     (hecb : s.endCb ≠ .none) : OKs lost (s.incCb true) := by
   have hphase : (s.incCb true).phase = .wrapUp := hph
-  refine ⟨?_, ?_, h.c1, ?_, h.cw, ?_, ?_, ?_, h.cn, ?_, ?_, h.s1, fun hc => by rw [hphase] at hc; rcases hc with hc | hc <;> cases hc⟩
+  refine ⟨?_, ?_, h.c1, ?_, h.cw, ?_, ?_, ?_, h.cn, ?_, ?_, h.s1, (fun hc => by rw [hphase] at hc; rcases hc with hc | hc <;> cases hc), h.mh⟩
   · intro hc; have : s.released = false := hc; rw [hr] at this; cases this
   · show s.nEC + 1 ≤ 1; omega
   · intro hc; rw [hphase] at hc; rcases hc with hc | hc <;> cases hc
@@ -253,23 +335,17 @@ theorem _root_.Taskpool.OKs.incEnd {lost : Bool} {s : SoftP} (h : OKs lost s) (h
 
 theorem _root_.Taskpool.OKs.toEndCb {lost : Bool} {s : SoftP} (h : OKs lost s) (hr : s.released = true)
     (hne : s.nEC = 1) (hecb : s.endCb = .coro) : OKs lost (s.setPhase .inEndCb) := by
-  refine ⟨h.e0, h.e1, h.c1, ?_, h.cw, ?_, ?_, h.ord, h.cn, h.en, ?_, h.s1, fun hc => by simp [SoftP.setPhase] at hc⟩
+  refine ⟨h.e0, h.e1, h.c1, ?_, h.cw, ?_, ?_, h.ord, h.cn, h.en, ?_, h.s1, (fun hc => by simp [SoftP.setPhase] at hc), h.mh⟩
   · intro hc; simp [SoftP.setPhase] at hc
   · intro hc; simp [SoftP.setPhase] at hc
   · intro _; exact ⟨hne, hecb, hr⟩
   · intro hc; simp [SoftP.setPhase] at hc
 
 /-- the end callback stage of `_task_ending`, for a task that has just been filed as ended and released -/
-theorem good_endCallback {cap : Cap} {L : Bool} (p : Pool) (t : Nat) (tk : PTask) (hg : Good cap L p) (s : SoftP) (hc : p.Cur t s)
+theorem good_endCallbackTail {cap : Cap} {L : Bool} (q : Pool) (t : Nat) (tk : PTask) (hg0 : Good cap L q) (s : SoftP) (hc0 : q.Cur t s)
     (hr : s.released = true) (hph : s.phase = .wrapUp) (hne : s.nEC = 0)
     (hA : s.wasCancelled = true → s.cancelCb ≠ .none → s.nCC = 1) (hspec : tk.endCb = s.endCb) :
-    Good cap L (p.endCallback t tk) := by
-  unfold endCallback
-  simp only
-  have t0 := tame_releaseMapSlot p t tk
-  have hg0 := t0.good hg
-  have hc0 := t0.cur hc
-  have hl0 : (p.releaseMapSlot t tk).lost = p.lost := t0.lost
+    Good cap L (if (q.runCb t tk true).2 = true then (q.runCb t tk true).1 else (q.runCb t tk true).1.finishTask t) := by
   have hok := hc0.ok hg0
   unfold runCb
   simp only [if_true]
@@ -285,10 +361,10 @@ theorem good_endCallback {cap : Cap} {L : Bool} (p : Pool) (t : Nat) (tk : PTask
     have hecb : s.endCb ≠ .none := by rw [← hspec, hcb]; simp
     have hinc := hok.incEnd hr hph hne hA hecb
     obtain ⟨hg1, hc1⟩ := good_cbBegin _ t tk true hg0 s hc0 hph hinc
-    have t2 := tame_logEv ((p.releaseMapSlot t tk).cbBegin t tk true) (evCbDone t true)
+    have t2 := tame_logEv (q.cbBegin t tk true) (evCbDone t true)
     refine good_finishTask _ t (t2.good hg1) _ (t2.cur hc1) ?_
-    have hl : (((p.releaseMapSlot t tk).cbBegin t tk true).logEv (evCbDone t true)).lost = (p.releaseMapSlot t tk).lost := by
-      have := (good_cbBegin_lost (p.releaseMapSlot t tk) t tk true); exact this
+    have hl : ((q.cbBegin t tk true).logEv (evCbDone t true)).lost = q.lost := by
+      have := (good_cbBegin_lost q t tk true); exact this
     rw [hl]
     exact hinc.finished hr (by show s.nEC + 1 = _; rw [hne]; simp [SoftP.incCb, hecb]) hA
   · -- a callback that raises
@@ -297,8 +373,8 @@ theorem good_endCallback {cap : Cap} {L : Bool} (p : Pool) (t : Nat) (tk : PTask
     have hecb : s.endCb ≠ .none := by rw [← hspec, hcb]; simp
     have hinc := hok.incEnd hr hph hne hA hecb
     obtain ⟨hg1, hc1⟩ := good_cbBegin _ t tk true hg0 s hc0 hph hinc
-    have t2 : Tame ((p.releaseMapSlot t tk).cbBegin t tk true)
-        ((((p.releaseMapSlot t tk).cbBegin t tk true).logEv (evCbRaised t true)).modTask t fun k => { k with pendingExc := some x }) :=
+    have t2 : Tame (q.cbBegin t tk true)
+        (((q.cbBegin t tk true).logEv (evCbRaised t true)).modTask t fun k => { k with pendingExc := some x }) :=
       Tame.trans (tame_logEv _ _) (tame_modTask _ t _)
     refine good_finishTask _ t (t2.good hg1) _ (t2.cur hc1) ?_
     rw [t2.lost, good_cbBegin_lost]
@@ -312,6 +388,18 @@ theorem good_endCallback {cap : Cap} {L : Bool} (p : Pool) (t : Nat) (tk : PTask
     refine (good_suspend _ t .inEndCb hg1 _ hc1 (fun h => by simp [NYR] at h) (fun _ => by simp) ?_).1
     rw [good_cbBegin_lost]
     exact hinc.toEndCb hr (by show s.nEC + 1 = 1; omega) hecb
+
+
+/-- the end callback stage of `_task_ending`, for a task that has just been filed as ended and released -/
+theorem good_endCallback {cap : Cap} {L : Bool} (p : Pool) (t : Nat) (tk : PTask) (hg : Good cap L p) (s : SoftP) (hc : p.Cur t s)
+    (hr : s.released = true) (hph : s.phase = .wrapUp) (hne : s.nEC = 0)
+    (hA : s.wasCancelled = true → s.cancelCb ≠ .none → s.nCC = 1) (hspec : tk.endCb = s.endCb)
+    (hmh : s.isMap = true → s.mapHeld = true) (hi : tk.isMap = s.isMap) (hq : tk.req = s.req) :
+    Good cap L (p.endCallback t tk) := by
+  unfold endCallback
+  simp only
+  obtain ⟨hg0, hc0, _⟩ := good_releaseMapSlot p t tk hg s hc hr hph hmh hi hq
+  exact good_endCallbackTail _ t tk hg0 s.dropMapIf hc0 hr hph hne hA hspec
 
 /-- the id is filed as ended, the slot is given back and the task marked released — one atomic leaf -/
 theorem good_moveRelease {cap : Cap} {L : Bool} (p p1 : Pool) (t : Nat) (hg : Good cap L p) (s : SoftP) (hc : p.Cur t s)
@@ -336,8 +424,15 @@ theorem good_moveRelease {cap : Cap} {L : Bool} (p p1 : Pool) (t : Nat) (hg : Go
   have hap : ((p1.releasePool).modTask t fun k => { k with released := true }).apis = p.apis := by
     rw [show ((p1.releasePool).modTask t fun k => { k with released := true }).apis = p1.releasePool.apis from rfl,
       releasePool_apis, moveToEnded_apis p p1 t hm]
-  refine ⟨⟨?_, ?_, ?_, hg.grp.of_eq hgr (by simp [modTask, h3, ht1]), ?_, fun h => by rw [hlost]; exact hg.ll h,
-    fun h => by rw [hap]; exact hg.al h⟩, ⟨_, hget, by rw [← hs]; rfl⟩⟩
+  have hmp : MapOK ((p1.releasePool).modTask t fun k => { k with released := true }) := by
+    have f1 : MapFrame p p1 := MapFrame.of_tasks p p1 (moveToEnded_reqs p p1 t hm) (by rw [ht1])
+      (fun i tk' h => by rw [ht1] at h; exact ⟨tk', h, rfl, rfl⟩)
+    have f2 := mapFrame_releasePool p1
+    have f3 : MapFrame p1.releasePool ((p1.releasePool).modTask t fun k => { k with released := true }) :=
+      MapFrame.modify _ _ t _ rfl rfl (fun _ _ => ⟨rfl, rfl⟩)
+    exact ((f1.trans f2).trans f3).map hg.map
+  refine ⟨⟨⟨?_, ?_, ?_, hg.grp.of_eq hgr (by simp [modTask, h3, ht1]), ?_, fun h => by rw [hlost]; exact hg.ll h,
+    fun h => by rw [hap]; exact hg.al h⟩, hmp⟩, ⟨_, hget, by rw [← hs]; rfl⟩⟩
   · cases cap with
     | fin n =>
       obtain ⟨v, hv, hsum⟩ := hg.slot
@@ -387,7 +482,9 @@ theorem good_taskEnding {cap : Cap} {L : Bool} (p : Pool) (t : Nat) (hg : Good c
     obtain ⟨hg1, hc1⟩ := good_moveRelease p p1 t hg s ⟨x, hx, hs⟩ he hm
     have hne : s.nEC = 0 := (Cur.ok (p := p) (t := t) ⟨x, hx, hs⟩ hg).e0 he.rel
     have hspecx : x.endCb = s.endCb := by rw [← hs]; rfl
-    exact good_endCallback _ t x hg1 s.release hc1 rfl he.ph hne he.acc hspecx
+    have hmh : s.isMap = true → s.mapHeld = true :=
+      fun h => (Cur.ok (p := p) (t := t) ⟨x, hx, hs⟩ hg).mh h he.rel
+    exact good_endCallback _ t x hg1 s.release hc1 rfl he.ph hne he.acc hspecx hmh (by rw [← hs]; rfl) (by rw [← hs]; rfl)
 
 /-! ### the cancel callback stage -/
 
@@ -396,7 +493,7 @@ def _root_.Taskpool.SoftP.markCancelled (s : SoftP) : SoftP := { s with wasCance
 theorem _root_.Taskpool.OKs.markCancelled {lost : Bool} {s : SoftP} (h : OKs lost s) (hph : s.phase = .wrapUp)
     (hrel : s.released = false) : OKs lost s.markCancelled := by
   have hne := h.e0 hrel
-  refine ⟨h.e0, h.e1, h.c1, ?_, fun _ => rfl, h.cc, h.ec, ?_, h.cn, h.en, ?_, h.s1, h.s0⟩
+  refine ⟨h.e0, h.e1, h.c1, ?_, fun _ => rfl, h.cc, h.ec, ?_, h.cn, h.en, ?_, h.s1, h.s0, h.mh⟩
   · intro hc; have : s.phase = .created ∨ s.phase = .inWorker := hc; rw [hph] at this; rcases this with h | h <;> cases h
   · intro hc; have : s.nEC = 1 := hc; omega
   · intro hc; have : s.phase = .finished := hc; rw [hph] at this; cases this
@@ -406,7 +503,7 @@ theorem _root_.Taskpool.OKs.incCancel {lost : Bool} {s : SoftP} (h : OKs lost s)
     OKs lost (s.incCb false) := by
   have hphase : (s.incCb false).phase = .wrapUp := hph
   have hne := h.e0 hrel
-  refine ⟨h.e0, h.e1, ?_, ?_, fun _ => hw, ?_, ?_, ?_, ?_, h.en, ?_, h.s1, fun hc => by rw [hphase] at hc; rcases hc with hc | hc <;> cases hc⟩
+  refine ⟨h.e0, h.e1, ?_, ?_, fun _ => hw, ?_, ?_, ?_, ?_, h.en, ?_, h.s1, (fun hc => by rw [hphase] at hc; rcases hc with hc | hc <;> cases hc), h.mh⟩
   · show s.nCC + 1 ≤ 1; omega
   · intro hc; rw [hphase] at hc; rcases hc with hc | hc <;> cases hc
   · intro hc; rw [hphase] at hc; cases hc
@@ -418,7 +515,7 @@ theorem _root_.Taskpool.OKs.incCancel {lost : Bool} {s : SoftP} (h : OKs lost s)
 theorem _root_.Taskpool.OKs.toCancelCb {lost : Bool} {s : SoftP} (h : OKs lost s) (hn : s.nCC = 1)
     (hccb : s.cancelCb = .coro) (hrel : s.released = false) : OKs lost (s.setPhase .inCancelCb) := by
   have hne := h.e0 hrel
-  refine ⟨h.e0, h.e1, h.c1, ?_, h.cw, ?_, ?_, h.ord, h.cn, h.en, ?_, h.s1, fun hc => by simp [SoftP.setPhase] at hc⟩
+  refine ⟨h.e0, h.e1, h.c1, ?_, h.cw, ?_, ?_, h.ord, h.cn, h.en, ?_, h.s1, (fun hc => by simp [SoftP.setPhase] at hc), h.mh⟩
   · intro hc; simp [SoftP.setPhase] at hc
   · intro _; exact ⟨hn, hccb⟩
   · intro hc; simp [SoftP.setPhase] at hc
@@ -473,7 +570,7 @@ theorem good_taskCancellation {cap : Cap} {L : Bool} (p : Pool) (t : Nat) (tk : 
     have ht : t ∈ p.running := by simpa using hrun
     -- the registry move
     have hg1 : Good cap L ({ p with running := p.running.erase t, cancelledR := p.cancelledR ++ [t] } : Pool) := by
-      refine ⟨hg.slot, hg.phase, hg.reg.regCancel t ht ?_, hg.grp.of_eq rfl rfl, hg.life, hg.ll, hg.al⟩
+      refine ⟨⟨hg.slot, hg.phase, hg.reg.regCancel t ht ?_, hg.grp.of_eq rfl rfl, hg.life, hg.ll, hg.al⟩, hg.map.of_eq rfl rfl⟩
       intro tk' h
       obtain ⟨x, hx, hs⟩ := hc
       rw [hx] at h; cases h
@@ -504,7 +601,7 @@ theorem good_taskCancellation {cap : Cap} {L : Bool} (p : Pool) (t : Nat) (tk : 
 
 theorem _root_.Taskpool.OKs.toInWorker {lost : Bool} {s : SoftP} (h : OKs lost s)
     (hc : s.phase = .created ∨ s.phase = .inWorker) : OKs lost (s.setPhase .inWorker) := by
-  refine ⟨h.e0, h.e1, h.c1, fun _ => h.c0 hc, h.cw, ?_, ?_, h.ord, h.cn, h.en, ?_, h.s1, fun _ => h.s0 hc⟩
+  refine ⟨h.e0, h.e1, h.c1, fun _ => h.c0 hc, h.cw, ?_, ?_, h.ord, h.cn, h.en, ?_, h.s1, fun _ => h.s0 hc, h.mh⟩
   · intro hx; simp [SoftP.setPhase] at hx
   · intro hx; simp [SoftP.setPhase] at hx
   · intro hx; simp [SoftP.setPhase] at hx
@@ -570,7 +667,7 @@ theorem good_stepCreated {cap : Cap} {L : Bool} (p : Pool) (t : Nat) (tk : PTask
 def _root_.Taskpool.SoftP.sawCancel (s : SoftP) : SoftP := { s with phase := .wrapUp, nSaw := s.nSaw + 1 }
 
 theorem _root_.Taskpool.OKs.sawCancel {lost : Bool} {s : SoftP} (h : OKs lost s) (hn : s.nSaw = 0) : OKs lost s.sawCancel := by
-  refine ⟨h.e0, h.e1, h.c1, ?_, h.cw, ?_, ?_, h.ord, h.cn, h.en, ?_, ?_, ?_⟩
+  refine ⟨h.e0, h.e1, h.c1, ?_, h.cw, ?_, ?_, h.ord, h.cn, h.en, ?_, ?_, ?_, h.mh⟩
   · intro hc; simp [SoftP.sawCancel] at hc
   · intro hc; simp [SoftP.sawCancel] at hc
   · intro hc; simp [SoftP.sawCancel] at hc
